@@ -223,6 +223,20 @@ struct CbSleeper : cocls::awaiter {
         return done();
     }
 };
+// interval() consumer in thread / pool mode; the stop token is triggered by another thread (or by the consumer after four ticks)
+cocls::async<void> mt_interval_user(cocls::scheduler &sch, std::stop_source &src, long period_ms) {
+    auto gen = sch.interval(ms(period_ms), src.get_token());
+    long last = dsim::now_ns(); int n = 0;
+    for (;;) {
+        bool ok = co_await gen.next();
+        if (!ok) break;                                 // stop requested, or the scheduler went away
+        long now = dsim::now_ns();
+        // (with stalls and clock jumps the consumer may be resumed long after the tick was due: only exact runs compare instants)
+        if (exact_time() && now - last < period_ms * 1000000L) dsim::fail("C12.early", "interval tick after %ldns, period is %ldms", now - last, period_ms);
+        last = now;
+        if (++n == 4) src.request_stop();
+    }
+}
 void deadlock_classifier() {
     if (dsim::cell_get(SEQ) == 77) dsim::fail("C12.destructor_hangs", "scheduler destructor requested stop but the scheduling thread never finished (everything is blocked)");
 }
@@ -236,10 +250,11 @@ void threaded_mode(bool pool_mode) {
     for (int c = 0; c < ncanc; c++) ctarget[c] = dsim::choose(n);
     bool destroy_early = dsim::flip();
     int nworkers = 1 + dsim::choose(2);
+    bool with_interval = dsim::choose(3) == 0;
     dsim::plan_note("%s mode: stalls=%d sleepers=", pool_mode ? "pool" : "thread", (int)dsim::config().stalls);
     for (int i = 0; i < n; i++) dsim::plan_note("%ld%s,", delay[i], kind[i] == 1 ? "blk" : kind[i] == 2 ? "cb" : "co");
     for (int c = 0; c < ncanc; c++) dsim::plan_note(" cancel->%d", ctarget[c]);
-    dsim::plan_note(" destroy_early=%d workers=%d", (int)destroy_early, nworkers);
+    dsim::plan_note(" destroy_early=%d workers=%d interval=%d", (int)destroy_early, nworkers, (int)with_interval);
     {
         std::unique_ptr<cocls::thread_pool> pool; std::thread thr;
         std::unique_ptr<cocls::scheduler> sch;
@@ -257,8 +272,14 @@ void threaded_mode(bool pool_mode) {
                 try { f.wait(); sleeper_woke(i, 1); } catch (const cocls::await_canceled_exception &) { sleeper_woke(i, 3); } catch (const vs::TestError &) { sleeper_woke(i, 2); }
             }
         });
+        std::stop_source iv_stop;
+        std::thread ivt;
+        if (with_interval) ivt = std::thread([&] { auto f = mt_interval_user(*sch, iv_stop, 3).start(); vs::cell_set_hb(ISSUED + n, 1); f.wait(); });
         std::thread canc([&] { for (int c = 0; c < ncanc; c++) { bool r = sch->cancel(ident(1 + ctarget[c]), vs::make_err(1)); if (r) dsim::cell_add(CANCEL_TRUE, 1); std::this_thread::yield(); } });
         canc.join();
+        // stop requested from this thread, while the generator may be parked in its sleep, parked at its yield, or running. The generator
+        // keeps calling into the scheduler until it has seen the stop, so its user is joined before the scheduler may go away
+        if (with_interval) { vs::wait_cell_hb(ISSUED + n); iv_stop.request_stop(); ivt.join(); }
         for (int i = 0; i < n; i++) vs::wait_cell_hb(ISSUED + i);      // the threads are done with 'sch' itself (they only wait on their futures now)
         if (!destroy_early) for (auto &t : th) t.join();
         dsim::cell_set(SEQ, 77);
